@@ -794,18 +794,48 @@ def _additive_cone(b, fl, op, at, depth=0, seen=None):
 THREE_OF_THREE_BUILDERS = {"mpc::mpc_arithmetic::private_product": "ABY3 multiplication: z_i = x_i*y_i + x_i*y_(i+1) + x_(i+1)*y_i"}
 
 
-def _range_loop_vars(b):
-    """locals bound to the counter of `for v in a..b` loops: local -> loop blocks"""
+def _range_loop_vars(b, fl=None):
+    """locals bound to the counter of `for v in 0..PARTIES` loops (constant bounds 0 and 3): local -> loop blocks"""
+    from .. import intexpr as IE
     out = {}
+    fl = fl or Flow(None, b)
     for h, blocks in C.loops(b):
         for bb in blocks:
             t = b.term(bb)
-            if t["k"] == "call" and (callee_name(t) or "").endswith("::next") and "Range" in (callee_name(t) or ""):
-                out[t["dest"][0]] = blocks   # the Option returned by next(): `(_n as Some).0` is the counter
-                for bb2, j2, pl, rv in b.assigns():
-                    if bb2 in blocks and len(pl) == 1 and rv[0] == "use" and rv[1][0] != "k" and rv[1][1][0] == t["dest"][0] \
-                            and len(rv[1][1]) > 1:
-                        out[pl[0]] = blocks
+            if not (t["k"] == "call" and (callee_name(t) or "").endswith("::next") and "Range" in (callee_name(t) or "")):
+                continue
+            # the Range value iterated: aggregate std::ops::Range { start, end } reaching the receiver of next()
+            rng = None
+            if t["args"] and t["args"][0][0] != "k":
+                root = fl.root_of(t["args"][0][1][0])
+                seen = set()
+                work = [root]
+                while work and rng is None:
+                    l = work.pop()
+                    if l in seen:
+                        continue
+                    seen.add(l)
+                    for di in fl.defs_of.get(l, []):
+                        _, db, dj = fl.defs[di]
+                        if db < 0:
+                            continue
+                        if dj is None:
+                            tt = b.term(db)
+                            if (callee_name(tt) or "").endswith("::into_iter") and tt["args"] and tt["args"][0][0] != "k":
+                                work.append(fl.root_of(tt["args"][0][1][0]))
+                        else:
+                            rv = b.stmts(db)[dj][2]
+                            if rv[0] == "agg" and rv[1].get("adt") == "std::ops::Range":
+                                rng = (IE.build(fl, b, rv[2][0]), IE.build(fl, b, rv[2][1]))
+                            elif rv[0] == "use" and rv[1][0] != "k":
+                                work.append(rv[1][1][0])
+            if rng is None or IE.evaluate(rng[0], {}) != 0 or IE.evaluate(rng[1], {}) != 3:
+                continue
+            out[t["dest"][0]] = blocks   # the Option returned by next(): `(_n as Some).0` is the counter
+            for bb2, j2, pl, rv in b.assigns():
+                if bb2 in blocks and len(pl) == 1 and rv[0] == "use" and rv[1][0] != "k" and rv[1][1][0] == t["dest"][0] \
+                        and len(rv[1][1]) > 1:
+                    out[pl[0]] = blocks
     return out
 
 
@@ -819,10 +849,10 @@ def component_locality(facts, rep, P="C02", file_filter=None):
     for name, b in mpc_bodies(facts, file_filter):
         if "/mpc/" not in b.file:
             continue
-        lv = _range_loop_vars(b)
+        fl = Flow(facts, b, EXTRA)
+        lv = _range_loop_vars(b, fl)
         if not lv:
             continue
-        fl = Flow(facts, b, EXTRA)
         three = name in THREE_OF_THREE_BUILDERS
         # share vectors: Vec<Node> whose stores are pushes of tuple_get(x, identity) inside a range loop
         sharevecs = {}
